@@ -289,3 +289,28 @@ def run(ctx):
                 ok = s in ('self.' + k, 'Clone::clone(self.%s)' % k)
             ctx.ob(ok, 'ConnectPacket.%s = %s' % (k, s[:60]), 'pkt-field|' + k, loc=tc.loc())
         ctx.floor(len(d), 16, 'ConnectPacket fields in the literal')
+
+    # ---- added after the mutation sweep
+    sqa = ctx.fn('ProtocolState::service_queue_aux')
+    dqc = sqa.calls('ProtocolState::dequeue_operation')
+    st_ok = True
+    for st_ in ('PendingConnack', 'Connected'):
+        r_ = prims.reaches_ret(sqa, [r'^\(self\.state == ProtocolStateType::%s\{\}\)$' % st_], 'Ok')
+        e_ = prims.edge_nodes_matching(sqa, [r'^\(self\.state == ProtocolStateType::%s\{\}\)$' % st_])
+        st_ok = st_ok and bool(e_) and bool(dqc) and any(dqc[0].bb in sqa.reach([x]) for x in e_)
+    ctx.ob(st_ok, 'the service loop body (dequeue, encode) is entered in PendingConnack and in Connected (each state alone suffices)', 'service-loop|states', loc=sqa.loc(), rule='R-C07-3')
+    enc_ = sqa.calls('Encoder::encode')
+    fwc = sqa.calls('ProtocolState::on_current_operation_fully_written')
+    ctx.ob(len(enc_) == 1 and len(fwc) == 1 and guarded_any(sqa, fwc[0].bb, [r'^\(.* == EncodeResult::Complete\{\}\)$', r' is Complete$']), 'an operation counts as written only when the encoder reports Complete', 'service-loop|complete', loc=sqa.loc(), rule='R-C07-3')
+    rfull = prims.rets_after(sqa, [r'^!\(.* == EncodeResult::Complete\{\}\)$'])
+    ctx.ob(rfull is not None and 'Ok' in rfull and bool(fwc) and not any(fwc[0].bb in sqa.reach([e]) and False for e in prims.edge_nodes_matching(sqa, [r'^!\(.* == EncodeResult::Complete\{\}\)$'])),
+           'a partially encoded operation ends the service call (the rest is written on a later call)', 'service-loop|partial', loc=sqa.loc(), rule='R-C07-3')
+    # ---- added after seeds C07-3a / C07-3b
+    inc_ = ctx.fn('ProtocolState::handle_network_event_incoming_data')
+    for cond in (r'^ProtocolState::is_connect_in_queue\(self\)$', r'^self\.current_operation is Some$', r'^self\.pending_write_completion$'):
+        ra = prims.rets_after(inc_, [r'^\(self\.state == ProtocolStateType::PendingConnack\{\}\)$', cond])
+        ctx.ob(ra == {'Err'}, 'anything received while the CONNECT is still queued, being encoded or not yet flushed (%s) is a connection error, not a CONNACK to act on (%s)' % (cond, sorted(ra or ['test not found'])),
+               'unsolicited|' + cond[:32], loc=inc_.loc(), rule='R-C07-4')
+    cs_none = [(short(m.view.path), m) for f_, m in prims.field_mutations(F, PS, P) if f_ == 'current_settings' and (m.kind == 'assign' or m.method == 'take') and show(m.rv) == 'Option::None{}']
+    ctx.ob([n for n, m in cs_none] == ['ProtocolState::reset'], 'the negotiated settings (with the server-assigned client id the next CONNECT reuses) are forgotten only by reset, never by a new connection (%s)' % [n for n, m in cs_none],
+           'clientid|settings-persist', loc=ctx.fn('ProtocolState::reset').loc(), rule='R-C07-5')
